@@ -50,6 +50,14 @@ type c18Input struct {
 	chunk   int
 	file    string // non-empty: ParseFile on this path
 	partial bool
+	comment byte // parser.Config.CommentChar (0: the default '#')
+}
+
+func (in c18Input) config() parser.Config {
+	if in.comment == 0 {
+		return parser.NewDefaultConfig()
+	}
+	return parser.Config{CommentChar: in.comment}
 }
 
 type c18Event struct {
@@ -75,7 +83,7 @@ func c18Reference(in c18Input) (nodes []string, firstErr string, pnc string) {
 	var ret error
 	if in.file != "" {
 		pnc = safely(func() {
-			ret = parser.ParseFileCallback(in.file, parser.NewDefaultConfig(), func(n *shared.ParserNode, err error) (bool, error) {
+			ret = parser.ParseFileCallback(in.file, in.config(), func(n *shared.ParserNode, err error) (bool, error) {
 				if err != nil {
 					evs = append(evs, parseEvent{Err: err.Error()})
 				} else {
@@ -85,7 +93,7 @@ func c18Reference(in c18Input) (nodes []string, firstErr string, pnc string) {
 			})
 		})
 	} else {
-		evs, ret, pnc = parseWith(&countingReader{data: []byte(in.text), limit: in.limit, chunk: in.chunk, partial: in.partial})
+		evs, ret, pnc = parseWithConfig(&countingReader{data: []byte(in.text), limit: in.limit, chunk: in.chunk, partial: in.partial}, in.config())
 	}
 	for _, e := range evs {
 		if e.Err != "" {
@@ -106,7 +114,7 @@ var c18GoroutineRe = regexp.MustCompile(`(?s)goroutine \d+ \[chan send[^\]]*\]:\
 // (a consumer that handles an error or a record slowly); a producer that gives up waiting
 // for the consumer shows up as a missing Done / a wrong trace.
 func c18Run(c *core.Ctx, in c18Input, policy string, r *rand.Rand, slowAfter time.Duration) (trace []string, pattern string, verdict string) {
-	p := parser.NewParser(parser.NewDefaultConfig())
+	p := parser.NewParser(in.config())
 	exited := make(chan struct{})
 	readerJitter := r.Intn(3)
 	consumerJitter := r.Intn(4)
@@ -281,11 +289,30 @@ func c18Inputs(c *core.Ctx, n int) []c18Input {
 			}
 		}
 	}
+	// a third of the inputs use another comment character (library configuration): the same text
+	// with '#' replaced, or left as it is (then '#' lines are data)
+	for i := range ins {
+		r := c.Rng("comment", i)
+		switch r.Intn(6) {
+		case 0:
+			ins[i].comment = ';'
+			if ins[i].file == "" {
+				ins[i].text = strings.ReplaceAll(ins[i].text, "#", ";")
+			}
+		case 1:
+			ins[i].comment = '%'
+		}
+		if ins[i].comment != 0 && ins[i].class == "file" {
+			// rewrite the file with comment lines of both kinds
+			b, _ := os.ReadFile(ins[i].file)
+			os.WriteFile(ins[i].file, []byte("; a note between the days\n"+strings.Replace(string(b), "#", string(ins[i].comment), 1)+"\nz:\n  ; meta: 1\n  % other: 2\n  q: 1\n"), 0o644)
+		}
+	}
 	return ins
 }
 
 func runC18(c *core.Ctx) {
-	c.SetRule("runs: inputs {valid, 1-4 malformed lines, empty/comment-only, reader failing at a random offset, 66 kB line, ParseFile on a regular file / missing path / directory} x consumer policy {A: documented loop, stop at first error or Done; B: drain until Done} x PRNG-chosen jitter (consumer: none/Gosched/50-500us sleep/busy loop before each receive; reader: none/Gosched/sleeps between chunks, chunk sizes 1..whole) x GOMAXPROCS {1,2,16}; harness built with the race detector. Oracle: trace at the consumer boundary == callback parser's nodes before its first error, then that error (A) / the error once, Done, producer exit (B). At every receive the monitor records which side reached the rendezvous first (p: the producer was already blocked in its send, c: the consumer had to wait); the jitter/arrival pattern is part of the case identity and the totals of both arrival orders are in the evidence. Non-trivial = run with >= 1 node or an error; distinct = hash(input, policy, jitter and arrival-order pattern).")
+	c.SetRule("runs: inputs {valid, 1-4 malformed lines, empty/comment-only, reader failing at a random offset, 66 kB line, ParseFile on a regular file / missing path / directory} x parser configuration {default comment character, two others} x consumer policy {A: documented loop, stop at first error or Done; B: drain until Done} x PRNG-chosen jitter (consumer: none/Gosched/50-500us sleep/busy loop before each receive; reader: none/Gosched/sleeps between chunks, chunk sizes 1..whole) x GOMAXPROCS {1,2,16}; harness built with the race detector. Oracle: trace at the consumer boundary == callback parser's nodes before its first error, then that error (A) / the error once, Done, producer exit (B). At every receive the monitor records which side reached the rendezvous first (p: the producer was already blocked in its send, c: the consumer had to wait); the jitter/arrival pattern is part of the case identity and the totals of both arrival orders are in the evidence. Non-trivial = run with >= 1 node or an error; distinct = hash(input, policy, jitter and arrival-order pattern).")
 	c.Assume("a producer left blocked after a policy-A consumer stops early is not asserted (the property does not promise it)")
 	c.Assume("wall-clock watchdogs are inconclusive unless a goroutine dump shows the producer blocked in a channel send")
 
